@@ -188,6 +188,23 @@ theorem take_stream (H D suffix : Bytes) (m : Nat) (hm : H.length + D.length ≤
 theorem delim_facts : Gen.Netconf.v1Dot0Delim ≠ [] ∧ (∀ b ∈ Gen.Netconf.v1Dot0Delim, b ≠ 60) := by
   decide
 
+/-- once the read of the first message has returned a rendered hello followed by `<`-free text,
+`Open` yields what the property demands -/
+theorem openSession_of_read (pf : Bool) (delimP : Bytes → Bool) (depth : Nat) (ret pref : Bytes)
+    (L : Layout) (s1 : Bytes) (chunks q : List Bytes)
+    (hL : L.ok = true) (hpf : pf = false → L.pfx = [])
+    (hs1 : ∀ b ∈ Gen.Netconf.v1Dot0Delim ++ s1, b ≠ 60)
+    (hread : readUntil (fun rb => delimP (window rb depth)) chunks []
+      = some (render L ++ (Gen.Netconf.v1Dot0Delim ++ s1), q)) :
+    openSession (parseHelloScan pf) delimP depth ret pref chunks
+      = specOpen (L.caps.map Prod.fst) L.sid pref ret q := by
+  have hOK := L.ok_OK hL
+  unfold openSession
+  rw [hread]
+  simp only [parseHelloScan, hasHelloScan_render L _ hOK, capsScan_render L _ hOK hs1,
+    sidScan_render pf L _ hOK hs1 hpf, specOpen]
+  simp only [Bool.not_true, Bool.false_eq_true, if_false]
+
 theorem openSession_render (pf : Bool) (delimP : Bytes → Bool) (depth : Nat) (ret pref : Bytes)
     (L : Layout) (suffix : Bytes) (chunks : List Bytes)
     (hdelim : ∀ s, delimP s = isInfix Gen.Netconf.v1Dot0Delim s)
@@ -235,5 +252,60 @@ theorem openSession_render (pf : Bool) (delimP : Bytes → Bool) (depth : Nat) (
   simp only [parseHelloScan, hasHelloScan_render L _ hOK, capsScan_render L _ hOK htail,
     sidScan_render pf L _ hOK htail hpf, specOpen]
   simp only [Bool.not_true, Bool.false_eq_true, if_false]
+
+theorem isInfix_take_stream (H D suffix : Bytes) (k : Nat) (hk : H.length + D.length ≤ k) :
+    isInfix D ((H ++ D ++ suffix).take k) = true := by
+  rw [take_stream H D suffix k hk]
+  exact (isInfix_iff D _).mpr ⟨H, suffix.take (k - (H.length + D.length)), by simp⟩
+
+/-- `Open` through in-channel authentication, over every segmentation of what arrives after the
+password: the login loop hands the hello over as one chunk, and the negotiation is what the
+property demands -/
+theorem openSessionAuth_render (pf : Bool) (delimP : Bytes → Bool) (depth : Nat) (ret pref : Bytes)
+    (L : Layout) (suffix : Bytes) (chunks : List Bytes)
+    (hdelim : ∀ s, delimP s = isInfix Gen.Netconf.v1Dot0Delim s)
+    (hL : L.ok = true) (hpf : pf = false → L.pfx = []) (hsuf : noLT suffix = true)
+    (hchunks : chunks.flatten = render L ++ Gen.Netconf.v1Dot0Delim ++ suffix)
+    (hearly : delimFirstAtEnd Gen.Netconf.v1Dot0Delim (render L) = true)
+    (hwin : windowOK Gen.Netconf.v1Dot0Delim depth (render L) suffix = true) :
+    ∃ q, openSessionAuth (parseHelloScan pf) delimP depth ret pref chunks
+        = specOpen (L.caps.map Prod.fst) L.sid pref ret q := by
+  obtain ⟨hDne, hDlt⟩ := delim_facts
+  generalize hD : Gen.Netconf.v1Dot0Delim = D at *
+  have hDpos : 0 < D.length := List.length_pos_iff.mpr hDne
+  have hSlen : ((render L) ++ D ++ suffix).length = (render L).length + D.length + suffix.length := by
+    rw [List.length_append, List.length_append]
+  obtain ⟨m, q, hm1, hm2, hread⟩ := readUntil_stream delimP chunks
+    (render L ++ D ++ suffix) ((render L).length + D.length) hchunks (by omega) (by omega)
+    (by
+      intro k hk
+      rw [hdelim, List.take_append_of_le_length (by rw [List.length_append]; omega)]
+      exact no_early_delim D (render L) hearly k hk)
+    (by
+      intro k hk1 _
+      rw [hdelim]
+      exact isInfix_take_stream _ _ _ k hk1)
+  refine ⟨q, ?_⟩
+  have htail : ∀ b ∈ D ++ suffix.take (m - ((render L).length + D.length)), b ≠ 60 := by
+    intro b hb
+    simp only [List.mem_append] at hb
+    rcases hb with hb | hb
+    · exact hDlt b hb
+    · exact (noLT_iff suffix).mp hsuf b (List.mem_of_mem_take hb)
+  unfold openSessionAuth authTail
+  rw [hread]
+  simp only
+  subst hD
+  apply openSession_of_read pf delimP depth ret pref L _ _ q hL hpf htail
+  have hw : delimP (window ((render L ++ Gen.Netconf.v1Dot0Delim ++ suffix).take m) depth) = true := by
+    rw [hdelim]
+    simp only [windowOK, List.all_eq_true, List.mem_range] at hwin
+    have := hwin (m - ((render L).length + Gen.Netconf.v1Dot0Delim.length)) (by omega)
+    have e : (render L).length + Gen.Netconf.v1Dot0Delim.length
+        + (m - ((render L).length + Gen.Netconf.v1Dot0Delim.length)) = m := by omega
+    rw [e] at this
+    exact this
+  rw [← take_stream _ _ _ _ hm1]
+  simp only [readUntil, List.nil_append, hw, if_true]
 
 end Scrapli.Netconf.Hello
